@@ -229,7 +229,8 @@ def _repr_task(task, out):
         tol = 3 * u * s_e * torch.maximum(torch.maximum(c_e, z_e.abs()), torch.ones_like(c_e)) + 2 * num.QSUB["float16"]
         fin = torch.isfinite(d_std) & torch.isfinite(d_awq)
         bad = ((d_awq - d_std).abs() > tol) & fin
-        inf_mismatch = (torch.isfinite(d_std) != torch.isfinite(d_awq)) & ((s_e * torch.maximum(c_e, z_e.abs())) < 60000)
+        # at the float16 overflow boundary one rounding decides between 65504 and inf: only a mismatch below it counts
+        inf_mismatch = (torch.isfinite(d_std) != torch.isfinite(d_awq)) & ((s_e * torch.maximum(c_e, z_e.abs())) < 60000) & ((s_e * diff).abs() < 65504.0 * (1 - 2.0**-10))
         if bool(bad.any()) or bool(inf_mismatch.any()):
             m = bad | inf_mismatch
             i = tuple(m.nonzero()[0].tolist())
